@@ -24,17 +24,25 @@ PROP = {
             "concatenation, the dropped signer being such a hidden required party in ~150 of them); 150 count-limited "
             "authorization scenarios (authz.CountAuthorization with 1-3 uses under own/alias/unrelated kinds, up to two grantees, "
             "mixed with generic ones, 3-9 identical messages in a row through ValidateSignersWithoutParties / "
-            "ValidateSignersWithParties / real MsgAddScopeDataAccess); 900 MsgWriteScope updates of an existing scope WITH a "
+            "ValidateSignersWithParties / real MsgAddScopeDataAccess); 250 scenarios with EXPIRING authorizations at controlled "
+            "block times (1-4 uses or generic, expiration at second 10 / 20 / none, 3-8 messages before, exactly at "
+            "(repeatedly) and after the expiration seconds, the stored expiration of every key read back after every "
+            "message); 900 MsgWriteScope updates of an existing scope WITH a "
             "value owner (the value owner changes together with nothing else / only optional flags of existing owners / roles "
             "or owners / data access, specification id or rollup flag, or stays / is left empty; signed by the value owner "
-            "only, the required parties only, both, or a mixed set with grants); 14 fixed witnesses of the Coq observations. Thorough "
+            "only, the required parties only, both, or a mixed set with grants); in every message stream a third (MsgWriteSession: half) of the MsgWriteScope / "
+            "MsgWriteSession / MsgWriteRecord messages identify their entry and specification only through scope_uuid / "
+            "spec_uuid / session_id_components / contract_spec_uuid (ids left empty) while the case carries the STORED "
+            "entry's parties; 18 fixed witnesses of the Coq observations. Thorough "
             "enumerates 3 addresses x role lists <= 3 x 4 signers and scales the random streams ~14x. A case is non-trivial when "
             "there is at least one signer and at least one required party or required role (direct calls) / always for messages "
             "and count scenarios; distinct = distinct case terms",
     "assumptions": [
-        "authz grants are generic authorizations (never consumed, unexpired): stated as theorems over a transcription of "
-        "findAuthzGrantee with count-limited authorizations (C10_generic_grants_assumption: on a generic store the lookup is "
-        "exactly the model's relation and read-only; C10_count_limited_outside_model: with one CountAuthorization it is not); "
+        "authz grants are generic authorizations (never consumed), the relation being the grants live at the block time: "
+        "stated as theorems over a transcription of findAuthzGrantee with count-limited and expiring authorizations "
+        "(C10_generic_grants_assumption: on a generic store the lookup is exactly the model's relation of live grants, "
+        "read-only and error-free; C10_count_limited_outside_model: with one CountAuthorization it is not; "
+        "C10_grant_must_be_live; C10_expiration_behaviour); "
         "the run records what the real keeper does with CountAuthorizations and compares it with that counted transcription, "
         "not with the main model",
         "scopes have no value owner and none is proposed on the scope/session/record endpoints (value-owner signer rules are "
@@ -47,7 +55,7 @@ PROP = {
         "the non-signature parts of the write validators (ids, spec lookups, record inputs/outputs, data-access lists) are "
         "satisfied, not modelled",
     ],
-    "level_text": "Kernel-checked theorems (34, closed under the global context) about the Gallina transcription of "
+    "level_text": "Kernel-checked theorems (36, closed under the global context) about the Gallina transcription of "
                   "signers.go / signer_utils.go and of the callers in scope.go, session.go, record.go, msg_server.go: an accepted "
                   "ValidateSignersWithParties accounts (signer or authz grant to a signer) for every non-optional required "
                   "party, admits an INJECTIVE assignment of the required-role entries to distinct available signing parties of "
@@ -68,8 +76,8 @@ PROP = {
                   "party list is proved to matter only as a SET (C10_required_set, C10_required_list_is_a_set, "
                   "C10_required_order_and_duplicates, C10_required_addresses_set: order of scope ++ session ++ previous session, "
                   "duplicates and earlier optional entries of the same party cannot change the answer). Each run evaluates "
-                  "the transcription against the real keeper functions and the real message handlers on ~12,560 (quick) / "
-                  "~220,000 (thorough) configurations inside Coq, and evaluates the documented rule (brute-force search for the "
+                  "the transcription against the real keeper functions and the real message handlers on ~12,800 (quick) / "
+                  "~224,000 (thorough) configurations inside Coq, and evaluates the documented rule (brute-force search for the "
                   "injective assignment, proved to decide it) on the implementation's own answers. One known finding "
                   "(documentation sentence about non-party contract signers, see findings/C10.md).",
     "level_note": "Trusted: Coq kernel + vm_compute; the hand transcriptions Metadata/Signers.v and Metadata/AuthzCount.v (tied "
